@@ -42,3 +42,14 @@ package mysql
 //@ func (*mysql.Node).Host
 //@   requires nonnil [safety]: n != nil
 //@   ensures def [C16,C10,C08,C01,C04,C11,C17,C18,C19]: result == n.host
+
+// ---- Cluster registry ------------------------------------------------------------------------
+// clusterInv: every registered handle is non-nil and carries the host name it is registered under.
+// Established by updateHAHostsInfo / updateCascadeHostsInfo (c.haNodes[node.Host()] = node); assumed ([inv]) where used.
+//@ define clusterInv(c *Cluster) = (forall k string :: has(c.haNodes, k) ==> c.haNodes[k] != nil && c.haNodes[k].host == k) && (forall k string :: has(c.cascadeNodes, k) ==> c.cascadeNodes[k] != nil && c.cascadeNodes[k].host == k)
+
+//@ func (*mysql.Cluster).Get
+//@   requires nonnil [safety]: c != nil
+//@   requires inv [inv]: clusterInv(c)
+//@   ensures C10.get [C10,C17,C04,C01,C08,C11,C16,C18,C19]: result != nil ==> result.host == host
+//@   ensures C10.get_registered [C10]: result != nil <==> (has(c.haNodes, host) || has(c.cascadeNodes, host))
